@@ -16,7 +16,7 @@ from nssverif.pipeline import make_config
 
 def region_of(g, cfg):
     return {"H": bits(g.core_alt), "R": bits(g.earth_radius), "limb": bits(cfg.simulation.angle_from_limb),
-            "thetaMax": bits(cfg.simulation.max_cherenkov_angle), "dPhi": bits(cfg.simulation.max_azimuth_angle)}
+            "thetaMax": bits(cfg.simulation.max_cherenkov_angle), "dPhi": bits(float(cfg.simulation.max_azimuth_angle))}
 
 
 def make_geom(spec):
@@ -28,6 +28,9 @@ def make_geom(spec):
     s.angle_from_limb = float(spec["limb_frac"] * hor)
     s.max_cherenkov_angle = float(np.radians(spec["cone_deg"]))
     s.max_azimuth_angle = float(np.radians(spec["az_deg"]))
+    if "az_raw" in spec:
+        # the azimuth range in radians exactly as given (an int, a numpy integer): a whole number of radians is a valid range
+        s.max_azimuth_angle = {"int3": 3, "npint2": np.int64(2), "int6": 6}[spec["az_raw"]]
     cfg.detector.initial_position.latitude = float(spec.get("dlat", 0.0))
     cfg.detector.initial_position.longitude = float(spec.get("dlon", 0.0))
     return RegionGeom(cfg), cfg
@@ -141,7 +144,9 @@ SPECS = [{"alt": 525.0, "limb_frac": 0.33, "cone_deg": 3.0, "az_deg": 360.0},
          {"alt": 5.0, "limb_frac": 0.9, "cone_deg": 0.5, "az_deg": 180.0, "dlat": -0.7, "dlon": -3.14159},
          {"alt": 2000.0, "limb_frac": 0.1, "cone_deg": 80.0, "az_deg": 360.0, "dlat": np.pi / 2, "dlon": 1.0},
          {"alt": 36000.0, "limb_frac": 0.6, "cone_deg": 3.0, "az_deg": 90.0, "dlat": -np.pi / 2, "dlon": 0.0},
-         {"alt": 525.0, "limb_frac": 0.05, "cone_deg": 10.0, "az_deg": 360.0, "dlat": 0.3, "dlon": 6.2}]
+         {"alt": 525.0, "limb_frac": 0.05, "cone_deg": 10.0, "az_deg": 360.0, "dlat": 0.3, "dlon": 6.2},
+         {"alt": 525.0, "limb_frac": 0.33, "cone_deg": 3.0, "az_deg": 0.0, "az_raw": "int3"},
+         {"alt": 400.0, "limb_frac": 0.4, "cone_deg": 5.0, "az_deg": 0.0, "az_raw": "npint2", "dlat": 0.5, "dlon": 1.0}]
 
 
 def run(tier="quick", seed=0, pid="C01"):
